@@ -190,6 +190,13 @@ def model_render(text, eff):
 _REF_CACHE = {}
 
 
+def norm_v(vs):
+    """Parse errors quote (and truncate) the source text, which contains the directive lines that the reference
+    lint sees neutralised: keep only the fixed part of such descriptions."""
+    return [[c, ln, pos, d.split("Found unparsable section", 1)[0] + "Found unparsable section" if "Found unparsable section" in d else d]
+            for c, ln, pos, d in vs]
+
+
 def reference_lint(text, eff):
     """Lint the text with a config object built directly from the model's effective values (no files, no inline)."""
     from sqlfluff.core import FluffConfig, Linter
@@ -208,8 +215,7 @@ def reference_lint(text, eff):
         node[path[-1]] = v
     cfg = FluffConfig(configs=configs, ignore_local_config=True)
     lf = Linter(config=cfg).lint_string(neutralise(text))
-    # descriptions may quote the source (unparsable sections): undo the neutralisation there
-    res = {"v": [[v.rule_code(), v.line_no, v.line_pos, v.desc().replace("sqlfluxx", "sqlfluff")] for v in lf.get_violations()],
+    res = {"v": norm_v([[v.rule_code(), v.line_no, v.line_pos, v.desc()] for v in lf.get_violations()]),
            "rendered": lf.templated_file.templated_str if lf.templated_file is not None else None}
     if len(_REF_CACHE) > 500:
         _REF_CACHE.clear()
@@ -264,7 +270,7 @@ def gen_case(rnd, kind):
                 out[k] = rnd.choice(PROBES[k][1])
         return out
 
-    nfiles = rnd.randint(2, 4) if kind == "history" else rnd.randint(1, 4)
+    nfiles = rnd.randint(2, 3) if kind == "history" else rnd.randint(1, 4)
     files = []
     for i in range(nfiles):
         d = rnd.choice(DIRS)
@@ -339,11 +345,19 @@ def gen_case(rnd, kind):
     return case
 
 
-@st.composite
-def cases(draw, tier):
-    rnd = draw(st.randoms(use_true_random=False))
-    kind = draw(st.sampled_from(["hierarchy"] * 5 + ["history"]))
-    return gen_case(rnd, kind)
+def cases(tier):
+    """The case is a pure function of one Hypothesis-drawn integer (5 hierarchies : 1 history).  Hypothesis always
+    starts a run with its minimal example (0), which would be the same case in every shard: it is returned as a marker
+    and counted as excluded (examples() asks for one more to make up for it)."""
+    import random
+
+    def build(s):
+        if s == 0:
+            return {"skip": "hypothesis-minimal-example"}
+        rnd = random.Random(s)
+        return gen_case(rnd, "history" if rnd.random() < 1 / 6 else "hierarchy")
+
+    return st.integers(0, 2 ** 62).map(build)
 
 
 # --------------------------------------------------------------------------- the check
@@ -432,14 +446,18 @@ class C27(Check):
         return cases(tier)
 
     def examples(self, tier):
-        return 12 if tier == "quick" else 400
+        return (10 if tier == "quick" else 400) + 1
 
     def budget_s(self, tier):
-        return 240.0 if tier == "quick" else 1700.0
+        # safety net only; VERIF_BUDGET_SCALE stretches it on a busy machine (every case spawns processes)
+        return (240.0 if tier == "quick" else 1700.0) * float(os.environ.get("VERIF_BUDGET_SCALE", "1"))
 
     # -- run
     def run_case(self, case):
         out = Outcome()
+        if case.get("skip"):
+            out.excluded = case["skip"]
+            return out
         files = {f["path"]: f for f in case["files"]}
         texts = {p: file_text(f) for p, f in files.items()}
         rspec = root_spec(case)
@@ -491,6 +509,7 @@ class C27(Check):
                 self.judge(out, case, files, texts, op, step["res"], fresh, i)
         finally:
             world.close()
+            out.labels = sorted(set(out.labels))
         return out
 
     def judge(self, out, case, files, texts, op, res, fresh, i):
@@ -545,7 +564,8 @@ class C27(Check):
             f = files[p]
             root_only = op.get("via") == "root"
             eff = effective(case, f, root_only=root_only)
-            rec = res["files"][p]
+            rec = dict(res["files"][p])
+            rec["v"] = norm_v(rec["v"])
             ref = reference_lint(texts[p], eff)
             if rec["v"] != ref["v"]:
                 inl = {k for k, *_ in f["inline"]}
@@ -561,6 +581,7 @@ class C27(Check):
 
     def compare(self, out, i, opname, p, text, eff, rec):
         ref = reference_lint(text, eff)
+        rec = dict(rec, v=norm_v(rec["v"]))
         if rec["v"] != ref["v"]:
             out.fail("step %d %s(%s): violations differ from the model config %s: got %s expected %s" % (
                 i, opname, p, {k: v[0] for k, v in eff.items() if v[1] != "default"}, rec["v"][:6], ref["v"][:6]),
